@@ -46,13 +46,58 @@ def closure_tree(facts, f):
     return out
 
 
+def _flows_to_return(f, local):
+    """Forward slice over moves / copies / wrapping aggregates / conversion calls: can the value built in `local` reach the
+    return place?  Reading the *success* payload out of a value (`(x as Ok).0`, `(x as Continue).0`) is not a flow of an Err
+    built there (a spliced fallible helper whose failure the caller replaces by a default does not return that failure)."""
+    from mir import op_place
+    edges = {}
+
+    def add(src_place, dst_local):
+        if src_place is None:
+            return
+        if any(isinstance(e, dict) and e.get("d") in ("Ok", "Continue") for e in src_place["p"]):
+            return
+        edges.setdefault(src_place["l"], set()).add(dst_local)
+    for b in sorted(f.live):
+        for s_ in f.stmts(b):
+            if s_["k"] != "assign":
+                continue
+            r = s_["r"]
+            ops = []
+            if r["k"] in ("use", "cast"):
+                ops = [r["o"]]
+            elif r["k"] == "agg":
+                ops = r.get("ops", [])
+            elif r["k"] == "ref":
+                add(r["p"], s_["p"]["l"])
+            for o in ops:
+                add(op_place(o), s_["p"]["l"])
+        t = f.term(b)
+        if t.get("k") == "call" and re.search(r"from_residual$|::from$|::into$|Try.*::branch$|map_err$|Poll.*::map", norm(t.get("decl") or t.get("res") or "")):
+            for a in t.get("args", []):
+                add(op_place(a), t["dest"]["l"])
+    seen, work = set(), [local]
+    while work:
+        l = work.pop()
+        if l in seen:
+            continue
+        seen.add(l)
+        work.extend(edges.get(l, ()))
+    return 0 in seen
+
+
 def err_sources(f):
     """(block, operand, how) for every Err value that can flow to the return place of f."""
     out = []
     for (b, i, s) in f.aggregates("Result", "Err"):
+        if not _flows_to_return(f, s["p"]["l"]):
+            continue
         out.append((b, s["r"]["ops"][0], "Err(..)"))
     for c in f.calls():
         if norm(c.decl or c.name).endswith("FromResidual::from_residual"):
+            if not c.t["dest"]["p"] and not _flows_to_return(f, c.t["dest"]["l"]):
+                continue    # the `?` of a spliced fallible helper whose failure the caller handles
             out.append((c.bb, c.args[0], "`?`"))
     return out
 
